@@ -515,7 +515,9 @@ impl ArchiveFooter {
         let len = u64::from(src.read_u32::<LittleEndian>()?);
 
         // Prepare for deserialization
-        src.seek(SeekFrom::Start(pos - len))?;
+        src.seek(SeekFrom::Start(
+            pos.checked_sub(len).ok_or(Error::DeserializationError)?,
+        ))?;
 
         // Read files_info
         let files_info: HashMap<String, FileInfo> = match bincode::options()
